@@ -267,6 +267,21 @@ func (s *Sim) PortOpen(portID int) bool {
 //go:norace
 func (s *Sim) PortBacklog(portID int) int { return len(s.ports[portID].inbox) }
 
+// PortQueued reports whether datagram id is still waiting, unread, on the socket.
+//
+//go:norace
+func (s *Sim) PortQueued(portID int, id int64) bool {
+	if portID < 0 || portID >= len(s.ports) {
+		return false
+	}
+	for _, d := range s.ports[portID].inbox {
+		if d.ID == id {
+			return true
+		}
+	}
+	return false
+}
+
 //go:norace
 func (s *Sim) ClosePort(portID int) {
 	p := s.ports[portID]
@@ -372,6 +387,9 @@ func NetWrite(portID int, b []byte, hasCM bool, ifindex int, dst net.Addr) (int,
 	s := S
 	c := &Capture{Port: portID, Bytes: append([]byte(nil), b...), HasCM: hasCM, IfIndex: ifindex, Step: s.Steps, Now: s.now}
 	if portID >= 0 && portID < len(s.ports) {
+		if s.ports[portID].closed {
+			return 0, net.ErrClosed
+		}
 		c.V6 = s.ports[portID].v6
 	}
 	if u, ok := dst.(*net.UDPAddr); ok && u != nil {
